@@ -80,8 +80,8 @@ LexNames == DOMAIN Lx
 \* ---- data context: tagged JSON.  str carries its HTML-escaped form (cross-checked by checks/X17.py against the
 \* five-character rule of X14), int / dbl carry their text
 Str(s, e) == [t |-> "str", v |-> s, esc |-> e]
-Int(s) == [t |-> "int", v |-> s]
-Dbl(s) == [t |-> "dbl", v |-> s]
+IntV(s) == [t |-> "int", v |-> s]
+DblV(s) == [t |-> "dbl", v |-> s]
 Bool(b) == [t |-> "bool", v |-> b]
 Null == [t |-> "null"]
 Obj(r) == [t |-> "obj", v |-> r]
@@ -92,8 +92,8 @@ Data == Obj([
   e |-> Str("", ""),
   k |-> Str("K", "K"),
   t |-> Bool(TRUE), f |-> Bool(FALSE), n |-> Null,
-  i |-> Int("0"), m |-> Int("-12"), d |-> Dbl("1.5"), g |-> Dbl("1e+20"),
-  o |-> Obj([s |-> Str("os", "os"), l |-> Arr(<<Str("<", "&lt;"), Int("7")>>), t |-> Null]),     \* o.t = null shadows t
+  i |-> IntV("0"), m |-> IntV("-12"), d |-> DblV("1.5"), g |-> DblV("1e+20"),
+  o |-> Obj([s |-> Str("os", "os"), l |-> Arr(<<Str("<", "&lt;"), IntV("7")>>), t |-> Null]),     \* o.t = null shadows t
   a |-> Arr(<<Obj([s |-> Str("1", "1")]), Obj([k |-> Str("2", "2"), n |-> Bool(TRUE)])>>),
   l |-> Arr(<<Str("p", "p"), Str("<", "&lt;")>>),
   z |-> Arr(<<>>)
